@@ -289,11 +289,12 @@ func switchCases(repo, file, recv, fn string) ([]string, error) {
 }
 
 // discoverExits classifies every `return` inside the refresh loop of (*connPool).discover by its guard:
-//   errIsPoolCtx   if … errors.Is(err, <ctx param>.Err())   (the pool's own context)
-//   errIsOtherCtx  if … errors.Is(err, <other>.Err())       (e.g. the per-request deadline context)
-//   poolDone       case <-done / <-ctx.Done()               (done := <ctx param>.Done())
-//   otherChan      any other select case
-//   other          anything else (unconditional, other conditions)
+//
+//	errIsPoolCtx   if … errors.Is(err, <ctx param>.Err())   (the pool's own context)
+//	errIsOtherCtx  if … errors.Is(err, <other>.Err())       (e.g. the per-request deadline context)
+//	poolDone       case <-done / <-ctx.Done()               (done := <ctx param>.Done())
+//	otherChan      any other select case
+//	other          anything else (unconditional, other conditions)
 func discoverExits(repo string) ([]string, error) {
 	fset := token.NewFileSet()
 	f, err := parser.ParseFile(fset, filepath.Join(repo, "transport.go"), nil, 0)
